@@ -301,7 +301,7 @@ class C04(Check):
             desc = {'k': 'replay', 'pair': pair, 'mode': mode, 'history': hist + [ev]}
             R.transitions += 1
             R.case(desc, nontrivial=(ev[0] == 'call'), cls=f'{pair}/{mode}/{ev[0]}',
-                   outcome='ok' if not viol else 'violation')
+                   outcome=f"{ev[0]}:{'ok' if not viol else 'violation'}")
             for sig, det in viol:
                 R.violation(sig, desc, det)
 
